@@ -64,7 +64,6 @@ SET_ITERATION_OK = {
     ("formulae.matrices.design_matrices", "list(cols_to_select)"): "only selects columns; every later access is by name",
     ("formulae.terms.variable.Variable.eval_new_data_categoric", "difference"): "feeds the text of the error / warning only",
     ("formulae.terms.call.Call.eval_new_data_categoric", "difference"): "feeds the text of the error / warning only",
-    ("formulae.contrasts.ExpandedTerm.pick_contrast", "subterm.efactors"): "fills a dict keyed by factor name (looked up by name)",
     ("formulae.contrasts.Subterm.absorb", "list(diff)"): "the set has exactly one element (asserted)",
     ("formulae.contrasts.Subterm.__repr__", "list(self.efactors)"): "debug representation only",
 }
@@ -590,6 +589,11 @@ def r7_7(prog, rep, pp):
     # iteration over sets
     te = pp.te
     n = 0
+    from ..hashorder import HashOrderFlow
+    flow = HashOrderFlow(prog, te, _is_set_expr)
+    filled = {}
+    for sf, snode, sname, swhy in flow.sources:
+        filled.setdefault(sf.qual, []).append((snode, sname, swhy))
     for q, f in sorted(prog.functions.items()):
         setvars = set()
         for s in ast.walk(f.node):
@@ -623,12 +627,38 @@ def r7_7(prog, rep, pp):
                 n += 1
                 key = (q, unparse(node) if isinstance(node, ast.Call) and dotted(node.func) in ("list", "tuple") else unparse(it))
                 reason = SET_ITERATION_OK.get(key) or _order_insensitive_consumer(f, node, parents)
+                if reason is None and isinstance(node, ast.For):
+                    # the loop only fills containers whose later uses are followed through the program (below)
+                    mine = [(sn, nm, w) for sn, nm, w in filled.get(q, []) if any(sn is x for b in node.body for x in ast.walk(b))]
+                    effects = [x for b in node.body for x in ast.walk(b) if isinstance(x, (ast.Assign, ast.AugAssign, ast.Return, ast.Yield))
+                               or (isinstance(x, ast.Expr) and isinstance(x.value, ast.Call))]
+                    if mine and len(effects) == len(mine):
+                        reason = "; ".join(w for _sn, _nm, w in mine) + " - every use of that container is followed (hash-order flow)"
                 construct = f"iteration over the set `{unparse(it)}`" + (f" in `{short(node, 50)}`" if isinstance(node, ast.Call) else "")
                 # passing through sorted(...) is always fine
                 obl(rep, f, node if hasattr(node, "lineno") else f.node, "R7.7", reason is not None, construct,
                     f"order-insensitive consumer: {reason}",
                     "the iteration order of a set (string hashing, varies between processes) can reach labels, columns or level order")
     rep.extra["set_iterations_examined"] = n
+    uses, examined = flow.order_sensitive_uses()
+    reached = sorted(q for q, e in flow.env.items() if any(d == 0 for d in e.values()))
+    for sf, snode, sname, swhy in flow.sources:
+        mine = [u for u in uses]
+        obl(rep, sf, snode, "R7.7", True, f"hash-ordered container `{sname}`", f"{swhy}; followed into {len(reached)} function(s): "
+            + ", ".join(r.split('formulae.')[-1] for r in reached)[:300])
+    for uf, unode, utxt, how in uses:
+        reason = _order_insensitive_consumer(uf, unode, flow._parents[uf.qual])
+        if reason is not None:
+            obl(rep, uf, unode, "R7.7", True, f"`{short(unode, 70)}` over a hash-ordered container", f"order-insensitive consumer: {reason}")
+            continue
+        obl(rep, uf, unode, "R7.7", False, f"`{short(unode, 70)}`", "",
+            f"`{utxt}` is a container filled in the iteration order of a set (string hashing, varies between interpreter runs) and its "
+            f"element order is observed here ({how}): term, column or label order can differ from run to run")
+    if flow.sources and (len(reached) < 6 or examined < 20):
+        raise AnalysisError(f"R7.7: the hash-order flow reaches only {len(reached)} function(s) / {examined} use(s) "
+                            "(floor 6 / 20 confirmed by hand: pick_contrast -> pick_contrasts -> Model.eval -> set_data / create_extra_term)")
+    rep.extra["hash_ordered_uses_examined"] = examined
+    rep.extra["hash_ordered_functions"] = reached
 
 
 def _order_insensitive_consumer(f, node, parents):
@@ -659,8 +689,14 @@ def _order_insensitive_consumer(f, node, parents):
                 if isinstance(up, ast.Raise) or (isinstance(up, ast.Call) and (dotted(up.func) or "") in ("warnings.warn", "_log.info", "_log.debug", "_log.warning")):
                     inside = True
                     break
-                if isinstance(up, ast.Assign) and up is st:
+                if isinstance(up, ast.Assign) and (up is st or (len(up.targets) == 1 and isinstance(up.targets[0], ast.Name) and up.targets[0].id == name)):
                     inside = True  # the re-binding itself (x = [str(v) for v in x])
+                    break
+                if isinstance(up, (ast.If, ast.While)) and any(u is z for z in ast.walk(up.test)):
+                    inside = True  # emptiness / truth test: order-free
+                    break
+                if isinstance(up, ast.Call) and dotted(up.func) in ("len", "bool", "sorted", "set", "frozenset", "any", "all"):
+                    inside = True
                     break
                 if isinstance(up, ast.stmt):
                     break
